@@ -659,22 +659,38 @@ pub fn big_count(r: &mut Rng, cap: usize) -> usize {
 
 const HEX: &[u8; 16] = b"0123456789abcdef";
 
-/// Lower-case hex of the algorithm's length whose first 8 digits are the
-/// serial number: unique per line by construction.
-pub fn unique_hash(r: &mut Rng, alg: Alg, serial: &mut u32) -> String {
-    *serial += 1;
-    let mut s = format!("{:08x}", *serial);
-    while s.len() < alg.hexlen() {
-        s.push(HEX[r.below(16)] as char);
+/// The hash text with serial number `n` and `len` hex digits: the serial in
+/// the first 8 digits, the rest a fixed function of it (so the text of an
+/// earlier line can be produced again).
+fn hash_text(n: u32, len: usize) -> String {
+    let mut s = format!("{:08x}", n);
+    let mut x = Rng::new(0x9e37_79b9_7f4a_7c15 ^ n as u64);
+    while s.len() < len {
+        s.push(HEX[x.below(16)] as char);
     }
     s
 }
 
-/// A hash as it may stand in a distinfo document: `unique_hash`, one time in
-/// six with its hex letters (partly) in upper case.  What is recorded and
-/// written back is the text of the line, whatever its case (C10, C11); C12,
-/// where the case of a recorded hash would matter, does not use this.
+/// Lower-case hex of the algorithm's length whose first 8 digits are the
+/// serial number: unique per line by construction.
+pub fn unique_hash(_r: &mut Rng, alg: Alg, serial: &mut u32) -> String {
+    *serial += 1;
+    hash_text(*serial, alg.hexlen())
+}
+
+/// A hash as it may stand in a distinfo document: `unique_hash`; one time in
+/// six with its hex letters (partly) in upper case; one time in ten the text
+/// of one of the three preceding lines again (the same text under another
+/// algorithm of that length - SHA1 / RMD160, SHA256 / BLAKE2s - or under
+/// another file, or a proper prefix / extension of it under an algorithm of
+/// another length).  What is recorded and written back is the text of the
+/// line, whatever it is (C10, C11); C12, where the value of a recorded hash
+/// matters, does not use this.
 pub fn doc_hash(r: &mut Rng, alg: Alg, serial: &mut u32) -> String {
+    if *serial > 0 && r.chance(1, 10) {
+        let back = r.range(1, 3).min(*serial as usize) as u32;
+        return hash_text(*serial + 1 - back, alg.hexlen());
+    }
     let h = unique_hash(r, alg, serial);
     match r.below(12) {
         0 => h.to_ascii_uppercase(),
